@@ -1028,7 +1028,8 @@ class DiskRefsContainer(RefsContainer):
             except FileNotFoundError:
                 return {}
             with f:
-                first_line = next(iter(f)).rstrip()
+                # An empty file (every entry removed, no header) has no lines.
+                first_line = next(iter(f), b"").rstrip()
                 if first_line.startswith(b"# pack-refs") and b" peeled" in first_line:
                     for sha, name, peeled in read_packed_refs_with_peeled(f):
                         self._packed_refs[name] = sha
